@@ -45,11 +45,13 @@ MANIFEST = {
             '(safe_user_spec, unsafe_user_never_expanded), and an Include equals the pasted lines when no expansion '
             'is pending (include_is_inlining_partial). Witness theorems pin the places where the faithful model, '
             'and the code, leave the property (expansion at the end of every parse() call, restart of the final '
-            'pass, "=" kept for no-split options, names glued by the template). The model is tied to the code by '
+            'pass, the empty user name, names assembling ${..} across substitutions) and, as pre-fix witnesses, the three '
+            'defects repaired by fix commits (glob order / dotfiles, "=" kept for no-split options, user name "."). '
+            'The model is tied to the code by '
             'generated configuration programs run through the real classes and the real connect() flow, and the '
             'property itself is evaluated on the real code against `ssh -G` and by metamorphic relations.',
     'note': 'ASCII config text; CIDR patterns, Match localnetwork, ~user and [..] globs are outside the model; the '
-            'directory order of Include globs is an input of the model; OpenSSH 9.2 `ssh -G` is the reference for '
+            'OpenSSH 9.2 `ssh -G` is the reference for '
             'the constructs both sides support; known deviations are reported by signature, see known_findings.json',
     'technique': 'Lean 4 proof by induction over config lines and include depth (generic invariant principle) + '
                  'tables regenerated from the source + differential correspondence + ssh -G / metamorphic / '
@@ -61,7 +63,6 @@ TRUSTED = [
     'CPython shlex / re / pathlib.glob / fnmatch semantics as transcribed in Model/Config.lean (validated '
     'differentially on every run)',
     'OpenSSH 9.2 `ssh -G` as the reference resolver for the constructs both sides support',
-    'directory (scandir) order of the filesystem is an input of the model',
     'pattern.py CIDR matching (property C17) is not modelled: Match Address patterns are wildcards only',
 ]
 ASSUMPTIONS = [
@@ -869,6 +870,10 @@ def compare_with_ssh(case: Dict[str, Any], base: str) -> Tuple[str, List[Tuple[s
             continue
         if key in DEDUP_KEYS:
             want = list(dict.fromkeys(want))
+        if name == 'ForwardAgent' and not (set(want) | set(got)) <= {'yes', 'no'}:
+            # `ssh -G` prints the agent socket path whenever one was configured, even when an earlier
+            # `ForwardAgent no` decided the option: only the yes/no form is comparable
+            continue
         if want != got:
             diffs.append((name, want, got))
     return ('differs' if diffs else 'ok'), diffs
@@ -1249,6 +1254,9 @@ def user_case_failure(template: str, user: str, result: str, env: Dict[str, str]
     if documented_unsafe(user):
         return ('server-user:documented-unsafe-name-accepted',
                 'user name %r is on the documented unsafe list but was substituted' % user)
+    if user == '' and result == ref and path_shape(result) != path_shape(reference_expand(template, 'U', env) or ''):
+        return ('server-user:empty-name-collapses-component',
+                'template %r with the empty user name resolves to %r' % (template, path_shape(result)[0]))
     if result != ref:
         if '${' in ref:
             return ('server-user:env-reference-assembled-across-substitutions',
@@ -1298,7 +1306,9 @@ def eval_user_pair(template: str, user: str, via_include: bool, conf: str, slot:
             cfg = SSHServerConfig.load(None, main, False, False, False, '127.0.0.1', 22, user, 'chost', '10.0.0.9')
             got = cfg.get('AuthorizedKeysFile')
         except asyncssh.misc.IllegalUserName:
-            if not documented_unsafe(user) and user != '..\n':
+            # refusing more is safe as long as ordinary names pass: `.` (and `..` + newline, which the
+            # regex's `$` also matches) change the meaning of a path and may be refused
+            if not documented_unsafe(user) and user not in ('..\n', '.', '.\n', ''):
                 return 'refused', [Failure('server-user:safe-name-refused',
                                            'user name %r is not on the documented unsafe list but is refused' % user, rep)]
             return 'refused', []
@@ -1319,7 +1329,7 @@ def eval_user_pair(template: str, user: str, via_include: bool, conf: str, slot:
 def oracle_users(ctx: Ctx, rng: Any, scratch: str, hist: Hist, res: OracleResult) -> None:
     pairs: List[Tuple[str, str, bool]] = []
     extra_templates = ['/keys/%u%u', '/keys/.%u', '/keys/%u./x', '${C18_A}/%u', '/k/${C18_B}%u', '%u/%u', '/keys/$%u',
-                       '/keys/%u}', '/keys/x%uy/z']
+                       '/keys/%u}', '/keys/x%uy/z', '/keys/.%u./x']
     for t in g.AK_TEMPLATES + extra_templates:
         for u in g.HOSTILE_USERS:
             pairs.append((t, u, False))
